@@ -91,7 +91,8 @@ assumed('url.urljoin', params={'base': 'Opt[str]', 'relurl': 'str'}, returns='st
 contract('cfgparser.ZConfigParser.__init__',
          params={'resource': 'Ref[ParserResource]', 'context': 'Ref[ParserContext]',
                  'defines': ('Opt[Ref[dict:defines]]', 'None')},
-         ensures=[Clause('self.url == resource.url and self.file == resource.file', carries='C06,C18', label='url-of-resource'),
+         requires=[Clause('resource.file is not None', label='resource-is-open')],
+         ensures=[Clause('self.url == resource.url and self.file == val(resource.file)', carries='C06,C18', label='url-of-resource'),
                   Clause('self.lineno == 0 and len(self.stack) == 0', carries='C06', label='own-empty-stack'),
                   Clause('implies(defines is not None, self.defines == val(defines))', carries='C05,C06',
                          label='defines-shared-by-reference'),
